@@ -246,6 +246,8 @@ def observeHandler : Handler := fun payload impl =>
             "FAIL storing the clause changed the caller's variables: want " ++ varsWant
           else if !disj && section_ impl "inq: " ≠ "[" ++ want ++ "]" then
             "FAIL clause/2 in the asserting query, after the caller bound its variables further, does not show the clause as stored (bindings made after storing leak into it): want " ++ want
+          else if field a "calla" ≠ field a "call" then
+            "FAIL the clause added with asserta/1 does not answer as the same clause added with assertz/1 (the alternatives of one clause term are stored as a block in source order)"
           else if field a "call2" ≠ field a "call" then
             "FAIL calling the predicate with a variant of its head (built through a different constructor path) does not behave as calling it with fresh variables"
           else if field a "clause" = want && field a "retract" = want && (a.splitOn "left=0").length = 2 then "ok"
